@@ -5,7 +5,7 @@ import json
 
 import codecseq
 import wire
-from common import Scratch, Verdict, build_harness, harness_json, log, marker_json, require_ok, run_tlc, seed, write_evidence
+from common import Infra, Scratch, Verdict, build_harness, harness_json, log, marker_json, require_ok, run_tlc, seed, write_evidence
 
 
 def stream_extra(prop):
@@ -52,6 +52,51 @@ def stream_extra(prop):
     return extra
 
 
+RAND_PROPS = {"frame-differs": {"C01", "C05"}, "not-at-boundary": {"C03", "C05"}, "bytes-left-over": {"C03", "C05"},
+              "frames-missing": {"C01", "C03", "C05"}, "read-beyond-written": {"C03"}}
+
+
+def random_streams(s, h, v, prop, tier):
+    """Binding T: streams of frames with random contents through random codec paths, judged by TLC (FrameStreamTrace.tla)."""
+    trace = s.file("framerand.ndjson")
+    n = 500 if tier == "quick" else 6000
+    rep = harness_json(h, ["framerand", "-vec", s.file("wire.ndjson"), "-out", trace, "-n", str(n), "-seed", str(seed())], timeout=3600)
+    lines = [json.loads(l) for l in open(trace)]
+    # control: a stream whose frame comes back different must be rejected
+    with open(trace, "a") as f:
+        for e in (dict(a="reset", trace=n + 1), dict(a="write", d="aa", len=10), dict(a="read", d="bb", pos=10, full=True), dict(a="end", left=0)):
+            f.write(json.dumps(e) + "\n")
+    with open(s.file("FrameStreamTraceRun.cfg"), "w") as f:
+        f.write("SPECIFICATION Spec\nCHECK_DEADLOCK FALSE\n")
+    res = require_ok(run_tlc(s, "FrameStreamTrace", cfg="FrameStreamTraceRun.cfg", workers=1, marker='"REJECTED"', copy=False, env=dict(TRACE=trace), timeout=3600),
+                     "FrameStreamTrace")
+    out = marker_json(res.lines, '"REJECTED"')
+    if not out or out[0]["n"] != len(lines) + 4:
+        raise Infra("FrameStreamTrace did not read the whole trace")
+    bad = [b for b in out[0]["bad"]]
+    ctl = [b for b in bad if int(b[0]) == n + 1]
+    if not ctl or ctl[0][2] != "frame-differs":
+        raise Infra("FrameStreamTrace accepted the control stream (a frame read back different)")
+    mine = 0
+    for b in bad:
+        t, line, why = int(b[0]), int(b[1]), b[2]
+        if t == n + 1 or prop not in RAND_PROPS.get(why, ()):
+            continue
+        # the events of that stream
+        start = max(i for i in range(line) if lines[i]["a"] == "reset")
+        ev = lines[start:line]
+        v.violation("framerand|%s" % why, "a stream of frames with random contents (seed %d, stream %d) rejected by FrameStreamTrace (%s): %s" % (
+            seed(), t, why, json.dumps(ev)[:1200]), dict(check="framerand", seed=seed(), stream=t, events=ev[:40]))
+        mine += 1
+    log("FrameStreamTrace: %d streams of random frames (%d frame reads, %d trace lines) judged by TLC, %d rejected lines (%d for %s); control stream rejected" % (
+        n, rep["evaluations"], len(lines), len(bad) - len(ctl), mine, prop))
+    return dict(streams=n, frame_reads=rep["evaluations"], trace_lines=len(lines), rejected=len(bad) - len(ctl), extra=rep.get("extra"),
+                rule="concrete frames of the TLC vectors with their strings and byte fields replaced by random contents (lengths up to 65535 / 60000, "
+                     "compressible and not), random sequences written back-to-back through random writer paths with none / LZ4 / Snappy, read back through "
+                     "random reader paths; one trace line per write / read / end, judged by TLC: FIFO, equal frames, reader at the frame boundary after "
+                     "every read, nothing left over; a control stream must be rejected")
+
+
 def run_wire_property(prop, tier, rule, level="exploration", extra=None):
     t0 = time.time()
     v = Verdict(prop)
@@ -79,6 +124,11 @@ def run_wire_property(prop, tier, rule, level="exploration", extra=None):
             more.setdefault("extra", {})["codec_histories"] = {k: cs[k] for k in cs if k != "violations"}
             more["evaluations"] = more.get("evaluations", 0) + cs["histories"]
             more["distinct"] = more.get("distinct", 0) + cs["distinct_prefixes"]
+        rs = None
+        if prop in ("C01", "C03", "C05"):
+            rs = random_streams(s, h, v, prop, tier)
+            more.setdefault("extra", {})["random_streams"] = rs
+            more["evaluations"] = more.get("evaluations", 0) + rs["frame_reads"]
         log("%s: %d vectors checked through every codec path, %d violations attributed to %s" % (prop, n, mine, prop))
         unlisted = v.finish()
         evals = rep["evaluations"] + (hrep["evaluations"] if hrep else 0) + more.get("evaluations", 0)
